@@ -732,8 +732,11 @@ impl<'a> World<'a> {
                     } else {
                         format!("in/{}", seq % 3)
                     };
+                    // (a broker may deliver a QoS>0 publish again with DUP set: it is
+                    // answered like any other)
+                    let dup = qos > 0 && self.is(P::C10) && self.ch.coin(1, 6);
                     Pk::Publish {
-                        dup: false,
+                        dup,
                         qos,
                         retain: false,
                         topic,
